@@ -83,8 +83,6 @@ pub trait RiRefImpl {
 
 		match (self.authority(), other.authority()) {
 			(Some(a), Some(b)) if a == b => (),
-			(Some(_), None) => (),
-			(None, Some(_)) => (),
 			(None, None) => (),
 			_ => {
 				return unsafe {
@@ -93,22 +91,64 @@ pub trait RiRefImpl {
 			}
 		}
 
-		let mut self_segments = self.path().normalized_segments().peekable();
-		let mut base_segments = other
-			.path()
-			.parent_or_empty()
-			.normalized_segments()
-			.peekable();
+		let self_path = self.path();
+		let base_path = other.path();
 
-		if self.path().is_absolute() == other.path().is_absolute() {
-			loop {
-				match (self_segments.peek(), base_segments.peek()) {
-					(Some(a), Some(b)) if a.as_pct_str().bytes().eq(b.as_pct_str().bytes()) => {
-						base_segments.next();
-						self_segments.next();
-					}
-					_ => break,
+		// Once merged with a relative reference, the base path is absolute if
+		// it starts with `/` or is empty after an authority.
+		let base_is_absolute = base_path.is_absolute()
+			|| (base_path.as_bytes().is_empty() && other.authority().is_some());
+
+		let same_path = self_path.is_absolute() == base_path.is_absolute() && {
+			let a = self_path.normalized_segments();
+			let b = base_path.normalized_segments();
+			a.len() == b.len()
+				&& a.zip(b)
+					.all(|(a, b)| a.as_pct_str().bytes().eq(b.as_pct_str().bytes()))
+		};
+
+		// A reference with an empty path inherits the base query, if it has
+		// no query itself.
+		let query_is_compatible = self.query().is_some() || other.query().is_none();
+
+		if same_path
+			&& query_is_compatible
+			&& (self_path.is_empty() || self.query().is_some() || self.fragment().is_some())
+		{
+			result.set_query(self.query());
+			result.set_fragment(self.fragment());
+			return result;
+		}
+
+		// No relative path can lead to the target path if it is empty, not of
+		// the same kind (absolute/relative) as the base path, or if `..`
+		// segments remain on either side once normalized.
+		let is_parent = |s: &<Self::Path as PathImpl>::Segment| s.as_bytes() == b"..";
+		if self_path.as_bytes().is_empty()
+			|| self_path.is_absolute() != base_is_absolute
+			|| self_path.normalized_segments().any(is_parent)
+			|| base_path
+				.parent_or_empty()
+				.normalized_segments()
+				.any(is_parent)
+		{
+			return unsafe {
+				<Self::RiRefBuf as RiRefBufImpl>::new_unchecked(self.as_bytes().to_vec())
+			};
+		}
+
+		let mut self_segments = self_path.normalized_segments().peekable();
+		let mut base_segments = base_path.parent_or_empty().normalized_segments().peekable();
+
+		// Skip the common prefix, but never the last segment of the target:
+		// `/a` is not the directory `/a/`.
+		while self_segments.len() > 1 {
+			match (self_segments.peek(), base_segments.peek()) {
+				(Some(a), Some(b)) if a.as_pct_str().bytes().eq(b.as_pct_str().bytes()) => {
+					base_segments.next();
+					self_segments.next();
 				}
+				_ => break,
 			}
 		}
 
@@ -122,10 +162,11 @@ pub trait RiRefImpl {
 			result.path_mut().push(segment)
 		}
 
-		if (self.query().is_some() || self.fragment().is_some())
-			&& Some(result.path().as_bytes()) == other.path().last().map(|s| s.as_bytes())
-		{
-			result.path_mut().clear()
+		if result.path().is_empty() {
+			// The target is the root of the base directory itself.
+			result.path_mut().push(unsafe {
+				<<Self::Path as PathImpl>::Segment as SegmentImpl>::new_unchecked(b".")
+			})
 		}
 
 		result.set_query(self.query());
